@@ -62,7 +62,7 @@ BaseCase == [id |-> <<>>, fam |-> "", vm |-> "raw", prog |-> <<>>,
              pkt |-> [base |-> PktBase(0), bytes |-> <<>>],
              mbuf |-> [base |-> MbufBase(0), bytes |-> <<>>],
              fixed |-> <<0, 8>>, allow |-> <<>>, helpers |-> {}, fsz |-> NoFsz,
-             calc |-> FALSE, budget |-> 0, dev |-> {}]
+             calc |-> FALSE, budget |-> 0, dev |-> {}, warm |-> 0]
 
 WithPkt(c, n)  == [c EXCEPT !.pkt  = [base |-> PktBase(n),  bytes |-> PatBytes(n)]]
 WithMbuf(c, n) == [c EXCEPT !.mbuf = [base |-> MbufBase(n), bytes |-> [k \in 1..n |-> (128 + k) % 256]]]
@@ -281,24 +281,36 @@ MemCases(u) ==
 BPktLen == 16
 BMbufLen == 24
 BAllowLen == 12
+BMbufLenS == 20
 
-\* layouts: <<vm, packet length, number of registered ranges>>
-Layouts == << <<"raw", BPktLen, 0>>, <<"raw", 0, 0>>, <<"mbuff", BPktLen, 0>>, <<"nodata", 0, 0>>,
-              <<"raw", BPktLen, 2>>, <<"fixed", BPktLen, 0>> >>
+\* layouts: <<vm, packet length, number of registered ranges, alignment>>; "end": the buffers end on
+\* a page boundary (one byte past them faults), "start": they begin on one and have lengths that
+\* are 4 modulo 8, so that a naturally aligned 8-byte access can straddle their end
+Layouts == << <<"raw", BPktLen, 0, "end">>, <<"raw", 0, 0, "end">>, <<"mbuff", BPktLen, 0, "end">>,
+              <<"nodata", 0, 0, "end">>, <<"raw", BPktLen, 2, "end">>, <<"fixed", BPktLen, 0, "end">>,
+              <<"raw", 12, 1, "start">>, <<"mbuff", 20, 0, "start">> >>
+
+AllowBaseS(k) == W64(0,0,112 + 16*k,0,0,16,0,0)             \* 0x1000_0070_0000 + k*0x10_0000
 
 LayoutCase(li) ==
   LET Lay  == Layouts[li]
+      st == Lay[4] = "start"
       c0 == [BaseCase EXCEPT !.vm = Lay[1]]
-      c1 == IF Lay[1] = "nodata" THEN c0 ELSE WithPkt(c0, Lay[2])
-      c2 == IF Lay[1] = "mbuff" THEN WithMbuf(c1, BMbufLen) ELSE c1
-  IN [c2 EXCEPT !.allow = [k \in 1..Lay[3] |-> [base |-> AllowBase(k, BAllowLen),
+      c1 == IF Lay[1] = "nodata" THEN c0
+            ELSE IF st THEN [c0 EXCEPT !.pkt = [base |-> PktBaseS, bytes |-> PatBytes(Lay[2])]]
+            ELSE WithPkt(c0, Lay[2])
+      c2 == IF Lay[1] # "mbuff" THEN c1
+            ELSE IF st THEN [c1 EXCEPT !.mbuf = [base |-> MbufBaseS, bytes |-> [k \in 1..BMbufLenS |-> (128 + k) % 256]]]
+            ELSE WithMbuf(c1, BMbufLen)
+  IN [c2 EXCEPT !.allow = [k \in 1..Lay[3] |-> [base |-> IF st THEN AllowBaseS(k) ELSE AllowBase(k, BAllowLen),
                                                 bytes |-> [j \in 1..BAllowLen |-> (64 * k + j) % 256]]]]
 
 \* length of region r in layout li (0 = absent)
 RegLen(li, r) ==
   LET Lay == Layouts[li] IN
   CASE r = 1 -> (IF Lay[1] = "nodata" THEN 0 ELSE Lay[2])
-    [] r = 2 -> (IF Lay[1] = "mbuff" THEN BMbufLen ELSE IF Lay[1] = "fixed" THEN 16 ELSE 0)
+    [] r = 2 -> (IF Lay[1] = "mbuff" THEN (IF Lay[4] = "start" THEN BMbufLenS ELSE BMbufLen)
+                 ELSE IF Lay[1] = "fixed" THEN 16 ELSE 0)
     [] r = 3 -> StackSize
     [] r \in {4, 5} -> (IF r - 3 <= Lay[3] THEN BAllowLen ELSE 0)
 
@@ -365,4 +377,174 @@ BoundsCases(u) ==
                 kind = 4 => w \in {4, 8} } } \cup
   { PktLoadCaseOf(t[1], t[2], t[3], t[4], t[5]) :
       t \in {x \in PktLoadIdx(u) : (x[2] = 0 => x[5] = 0) /\ (x[4] \notin 0..100 => x[5] = 0)} }
+(***************************************************************************)
+(* Family "farcall": local calls whose displacement does not fit 16 bits,  *)
+(* forward and backward (the call displacement is the 32-bit immediate).   *)
+(*   0: callx +N ; 1: exit ; 2: mov r0,77 ; 3: exit ; 4..N: filler ;       *)
+(*   N+1: callx -N (-> 2) ; N+2: add r0,1 ; N+3: exit          => r0 = 78  *)
+(***************************************************************************)
+CallxI(imm) == I(CALL, 0, 1, 0, imm)
+CallI(id)   == I(CALL, 0, 0, 0, id)
+
+FarCallProg(N) ==
+  Flat(<< CallxI(N), ExitI, Mov64I(0, 77), ExitI >>) \o << Seg(N - 3, Filler) >>
+  \o Flat(<< CallxI(-N), Add64I(0, 1), ExitI >>)
+FarCallCases(u) ==
+  { [BaseCase EXCEPT !.id = <<"farcall", N, 0, 0, 0, 0, 0>>, !.fam = "farcall", !.vm = "nodata",
+                     !.prog = FarCallProg(N)] : N \in {4, 32767, 32768, 65537, 200001, 999990} }
+
+(***************************************************************************)
+(* Family "calls" (C07): chains of nested local calls of depth 0..9, laid  *)
+(* out forward (callee after caller) or backward, with frame-size          *)
+(* calculators.  Function k (0 = main), non-leaf:                          *)
+(*     mov r6,100k+6 ; mov r8,100k+8 ; mov r9,r10 ;                        *)
+(*     mov r7,r1 ; sub r7,r10      (k >= 1: caller's r10 - own r10)        *)
+(*     stdw [r10-8],100k+1 ; mov r1,r10 ; callx f(k+1) ;                   *)
+(*     add r0,r2 ; add r0,r3 ; add r0,r4 ; add r0,r5   (results pass)      *)
+(*     ldxdw r2,[r10-8] ; add r0,r2                    (own slot intact)   *)
+(*     add r0,r6 ; add r0,r7 ; add r0,r8               (callee-saved)      *)
+(*     sub r9,r10 ; add r0,r9                          (r10 restored)      *)
+(*     exit                                                                *)
+(* leaf:  mov r0,r1 ; sub r0,r10 ; stdw [r10-8],4242 ; ldxdw r2,[r10-8] ;  *)
+(*        add r0,r2 ; mov r2..r5,<2,3,4,5> ; mov r6..r9,<1,2,3,4> ; exit   *)
+(***************************************************************************)
+Sub64R(d, s2) == I(31, d, s2, 0, 0)     \* 0x1f sub64 rd, rs
+Add64R(d, s2) == I(15, d, s2, 0, 0)     \* 0x0f add64 rd, rs
+
+FnPre(k) == << Mov64I(6, 100*k + 6), Mov64I(8, 100*k + 8), Mov64R(9, 10) >>
+            \o (IF k >= 1 THEN << Mov64R(7, 1), Sub64R(7, 10) >> ELSE << Mov64I(7, 7) >>)
+            \o << StI(8, 10, -8, 100*k + 1), Mov64R(1, 10) >>
+FnPost == << Add64R(0, 2), Add64R(0, 3), Add64R(0, 4), Add64R(0, 5),
+             LdxI(8, 2, 10, -8), Add64R(0, 2),
+             Add64R(0, 6), Add64R(0, 7), Add64R(0, 8),
+             Sub64R(9, 10), Add64R(0, 9), ExitI >>
+Leaf(k) == (IF k >= 1 THEN << Mov64R(0, 1), Sub64R(0, 10) >> ELSE << Mov64I(0, 5), Mov64I(1, 0) >>)
+           \o << StI(8, 10, -8, 4242), LdxI(8, 2, 10, -8), Add64R(0, 2),
+                 Mov64I(2, 2), Mov64I(3, 3), Mov64I(4, 4), Mov64I(5, 5),
+                 Mov64I(6, 1), Mov64I(7, 2), Mov64I(8, 3), Mov64I(9, 4), ExitI >>
+
+FnLen(k, D) == IF k = D THEN Len(Leaf(k)) ELSE Len(FnPre(k)) + 1 + Len(FnPost)
+
+\* forward layout: f0 f1 ... fD.  start(k) = sum of lengths before k
+RECURSIVE FwdStart(_, _)
+FwdStart(k, D) == IF k = 0 THEN 0 ELSE FwdStart(k-1, D) + FnLen(k-1, D)
+FwdFn(k, D) == IF k = D THEN Leaf(k)
+               ELSE FnPre(k) \o << CallxI(FwdStart(k+1, D) - (FwdStart(k, D) + Len(FnPre(k)) + 1)) >> \o FnPost
+RECURSIVE FwdProg(_, _)
+FwdProg(k, D) == IF k > D THEN <<>> ELSE FwdFn(k, D) \o FwdProg(k+1, D)
+
+\* backward layout: "ja main" ; fD ... f1 ; f0(main) last.  start(k) for k >= 1 counts from pc 1
+RECURSIVE BwdStart(_, _)
+BwdStart(k, D) == IF k = D THEN 1 ELSE BwdStart(k+1, D) + FnLen(k+1, D)
+BwdFn(k, D) == IF k = D THEN Leaf(k)
+               ELSE FnPre(k) \o << CallxI(BwdStart(k+1, D) - (BwdStart(k, D) + Len(FnPre(k)) + 1)) >> \o FnPost
+RECURSIVE BwdProg(_, _)
+BwdProg(k, D) == IF k < 0 THEN <<>> ELSE BwdFn(k, D) \o BwdProg(k-1, D)
+
+\* frame-size calculators: 0 none; otherwise a table entry per function entry (and a default)
+CalcSizes == << 0, 0, 16, 64, 256, 512 >>      \* index 2..6: constant size; 7: 16*(k+1) per entry
+FszFor(ci, D, starts) ==
+  IF ci = 1 THEN NoFsz
+  ELSE IF ci <= 6 THEN [dflt |-> CalcSizes[ci], tab |-> <<>>]
+  ELSE [dflt |-> 48, tab |-> [k \in 1..(D+1) |-> << starts[k], 16 * k >>]]
+
+ChainCase(D, dir, ci) ==
+  LET prog   == IF dir = 0 THEN FwdProg(0, D) ELSE << JaI(BwdStart(0, D) - 1) >> \o BwdProg(D, D)
+      starts == [k \in 1..(D+1) |-> IF dir = 0 THEN FwdStart(k-1, D)
+                                   ELSE IF k = 1 THEN 0 ELSE BwdStart(k-1, D)]
+  IN [BaseCase EXCEPT !.id = <<"chain", D, dir, ci, 0, 0, 0>>, !.fam = "calls", !.vm = "nodata",
+                      !.prog = Flat(prog), !.calc = (ci # 1), !.fsz = FszFor(ci, D, starts)]
+
+\* bounded recursion: r0 = N + (N-1) + ... + 1, depth N+1
+RecProg(N) == Flat(<< Mov64I(1, N), CallxI(1), ExitI,
+                      I(85, 1, 0, 2, 0), Mov64I(0, 0), ExitI,        \* jne r1, 0, +2
+                      Mov64R(6, 1), Add64I(1, -1), CallxI(-6), Add64R(0, 6), ExitI >>)
+RecCase(N, ci) == [BaseCase EXCEPT !.id = <<"rec", N, ci, 0, 0, 0, 0>>, !.fam = "calls", !.vm = "nodata",
+                                   !.prog = RecProg(N), !.calc = (ci # 1), !.fsz = FszFor(IF ci = 7 THEN 3 ELSE ci, 0, <<0>>)]
+
+\* variants reproducing the recorded x86-64 JIT finding (the callee shares the caller's r10)
+WithJitDev(S) == S \cup (IF "jit_r10" \in KnownDevs THEN { [c EXCEPT !.dev = {"jit_r10"}] : c \in S } ELSE {})
+
+CallsCases(u) ==
+  WithJitDev( { ChainCase(t[1], t[2], t[3]) : t \in {x \in (0..9) \X {0, 1} \X (1..7) : Keep(x[1] + 3*x[2] + 5*x[3])} }
+              \cup { RecCase(N, ci) : N \in 0..9, ci \in {1, 2, 3} } )
+
+(***************************************************************************)
+(* Family "helpers" (C08): helper calls with boundary ids and arguments,   *)
+(* at call depth 0..3, one to three calls per program, with exact, larger  *)
+(* and incomplete sets of registered helpers.                              *)
+(***************************************************************************)
+HelperIds == << 0, 1, 6, 2147483647, MinI32, -1 >>
+
+\* the body around one helper call: arguments from V64, result folded with r6..r10
+HCall(id, a) == LddwSlots(1, V64[a[1]]) \o LddwSlots(2, V64[a[2]]) \o LddwSlots(3, V64[a[3]])
+                \o LddwSlots(4, V64[a[4]]) \o LddwSlots(5, V64[a[5]]) \o << CallI(id) >>
+HBody(ids, a) ==
+  << Mov64I(6, 66), Mov64I(7, 77), Mov64I(8, 88), Mov64R(9, 10) >>
+  \o HCall(ids[1], a)
+  \o (IF Len(ids) >= 2 THEN << Mov64R(6, 0) >> \o HCall(ids[2], <<a[2], a[3], a[4], a[5], a[1]>>) \o << Add64R(0, 6), Mov64I(6, 66) >> ELSE <<>>)
+  \o (IF Len(ids) >= 3 THEN << Mov64R(7, 0) >> \o HCall(ids[3], <<a[5], a[4], a[3], a[2], a[1]>>) \o << Add64R(0, 7), Mov64I(7, 77) >> ELSE <<>>)
+  \o << Add64R(0, 6), Add64R(0, 7), Add64R(0, 8), Sub64R(9, 10), Add64R(0, 9), ExitI >>
+
+\* d nested "callx +1 ; exit" wrappers, then the body
+HProg(d, ids, a) == Flat([k \in 1..(2*d) |-> IF k % 2 = 1 THEN CallxI(1) ELSE ExitI] \o HBody(ids, a))
+
+ArgSets == << <<2, 3, 13, 16, 19>>, <<16, 15, 14, 13, 12>>, <<1, 11, 10, 9, 20>>, <<15, 15, 15, 15, 15>>, <<18, 17, 6, 7, 8>> >>
+RegSets(ids) == << {ids[k] : k \in 1..Len(ids)},                            \* exact
+                   {ids[k] : k \in 1..Len(ids)} \cup {5, 77},               \* superset
+                   {ids[k] : k \in 1..(Len(ids)-1)} \cup {5} >>             \* missing the last one
+HelperCase(d, idsel, ai, rs) ==
+  LET ids == idsel IN
+  [BaseCase EXCEPT !.id = <<"h", d, ids, ai, rs, 0, 0>>, !.fam = "helpers", !.vm = "nodata",
+                   !.prog = HProg(d, ids, ArgSets[ai]), !.helpers = RegSets(ids)[rs]]
+IdSels == { <<HelperIds[k]>> : k \in 1..6 } \cup { <<1, 6>>, <<-1, 0, MinI32>>, <<2147483647, 1, 1>> }
+HelperCases(u) ==
+  { HelperCase(t[1], t[2], t[3], t[4]) :
+      t \in { x \in (0..3) \X IdSels \X (1..Len(ArgSets)) \X (1..3) : Keep(x[1] + 3 * x[3] + 7 * x[4] + Len(x[2])) } }
+
+(***************************************************************************)
+(* Family "ctx" (C09): probe programs that read what each VM kind presents *)
+(* at entry: r1, the packet pointers of the metadata buffer, packet loads, *)
+(* the 512-byte stack under r10.                                           *)
+(***************************************************************************)
+CtxPktLens == << 0, 1, 7, 8, 9, 64 >>
+OffPairs == << <<0, 8>>, <<8, 0>>, <<64, 80>>, <<80, 64>>, <<0, 4096>>, <<4096, 8>>, <<16, 24>>, <<65536, 8>>, <<8, 16>> >>
+
+\* probes: 1 r1 ; 2 *(r1+do) ; 3 *(r1+deo) ; 4 *(r1+deo) - *(r1+do) ; 5 ldabsb 0 ; 6 ldabsb len-1 ;
+\*         7 stb [r10-1] ; 8 stb [r10-512] ; 9 stb [r10+0] ; 10 stb [r10-513] ; 11 ldxb [r1+0] ; 12 ldxb [r1+len-1]
+\* (offsets may exceed the 16-bit displacement: they are added to a copy of r1 first)
+CtxProbe(pr, do, deo, plen) ==
+  CASE pr = 1  -> << Mov64R(0, 1), ExitI >>
+    [] pr = 2  -> << Mov64R(3, 1), Add64I(3, do), LdxI(8, 0, 3, 0), ExitI >>
+    [] pr = 3  -> << Mov64R(3, 1), Add64I(3, deo), LdxI(8, 0, 3, 0), ExitI >>
+    [] pr = 4  -> << Mov64R(3, 1), Add64I(3, deo), LdxI(8, 0, 3, 0),
+                     Mov64R(3, 1), Add64I(3, do), LdxI(8, 2, 3, 0), Sub64R(0, 2), ExitI >>
+    [] pr = 5  -> << LdAbsI(1, 0), ExitI >>
+    [] pr = 6  -> << LdAbsI(1, plen - 1), ExitI >>
+    [] pr = 7  -> << Mov64I(0, 7), StI(1, 10, -1, 1), LdxI(1, 0, 10, -1), ExitI >>
+    [] pr = 8  -> << Mov64I(0, 8), StI(1, 10, -512, 2), LdxI(1, 0, 10, -512), ExitI >>
+    [] pr = 9  -> << Mov64I(0, 9), StI(1, 10, 0, 3), ExitI >>
+    [] pr = 10 -> << Mov64I(0, 10), StI(1, 10, -513, 4), ExitI >>
+    [] pr = 11 -> << LdxI(1, 0, 1, 0), ExitI >>
+    [] pr = 12 -> << LdxI(1, 0, 1, plen - 1), ExitI >>
+
+CtxCase(vk, pr, li, oi, warm) ==
+  LET vm   == VmKinds[vk]
+      plen == CtxPktLens[li]
+      op   == OffPairs[oi]
+      c0   == [BaseCase EXCEPT !.vm = vm, !.fixed = op, !.warm = warm]
+      c1   == IF vm = "nodata" THEN c0 ELSE WithPkt(c0, plen)
+      c2   == IF vm = "mbuff" THEN WithMbuf(c1, 32) ELSE c1
+  IN [c2 EXCEPT !.id = <<"ctx", vk, pr, li, oi, warm, 0>>, !.fam = "ctx",
+                !.prog = Flat(CtxProbe(pr, op[1], op[2], IF plen = 0 THEN 1 ELSE plen))]
+
+CtxOK(t) == /\ (t[2] \in {2, 3, 4} => VmKinds[t[1]] = "fixed")            \* pointer probes: fixed-metadata VM
+            /\ (VmKinds[t[1]] # "fixed" => t[4] = 1)                        \* offsets only matter there
+            /\ (VmKinds[t[1]] = "nodata" => t[3] = 1)
+            \* empty packet: only data_end - data = 0 is required, the pointer value itself is free
+            /\ (CtxPktLens[t[3]] = 0 => t[2] \notin {2, 3})
+CtxCases(u) ==
+  { CtxCase(t[1], t[2], t[3], t[4], t[5]) :
+      t \in { x \in (1..4) \X (1..12) \X (1..Len(CtxPktLens)) \X (1..Len(OffPairs)) \X {0, 1} :
+                CtxOK(x) /\ Keep(x[1] + 3*x[2] + 5*x[3] + 7*x[4] + x[5]) } }
 =============================================================================
